@@ -50,6 +50,15 @@ Definition kv_eqb (a b : string * value) : bool := String.eqb (fst a) (fst b) &&
 Definition option_eqb {A} (eqb : A -> A -> bool) (a b : option A) : bool :=
   match a, b with Some x, Some y => eqb x y | None, None => true | _, _ => false end.
 
+Fixpoint memb_s (k : string) (l : list string) : bool :=
+  match l with [] => false | k' :: l' => String.eqb k k' || memb_s k l' end.
+
+Lemma memb_s_In k l : memb_s k l = true -> In k l.
+Proof.
+  induction l as [|k' l IH]; cbn [memb_s In]; [discriminate|].
+  intros H. apply orb_prop in H as [H|H]; [left; symmetry; now apply String.eqb_eq|right; auto].
+Qed.
+
 (* indices (from 0) of the cases whose check is false *)
 Fixpoint mismatches_from {A} (chk : A -> bool) (i : N) (l : list A) : list N :=
   match l with
